@@ -177,6 +177,8 @@ def setup(concepts, spec):
             attach.attach(owner, name, mon)
         except (KeyError, core.HarnessError):
             COL.count(f'hook_unavailable_{name}')
+    global POOL
+    POOL = common.Pool(5)
 
 
 def cases(tier, seed, spec):
@@ -200,6 +202,7 @@ def run_case(concepts, case, spec):
     with core.monitor_code():
         judge_structure(lat, cap, 'quiescent')
     k = 0
+    asked = []
     for sub in gen.subsets_of(ctx.objects, rng, all_below=8, sampled=30):
         k += 1
         if k > (300 if spec['tier'] == 'thorough' else 120):
@@ -207,7 +210,19 @@ def run_case(concepts, case, spec):
         if k % 3 == 0:
             call(ctx.neighbors, gen.disguise(sub, rng), True)
         else:
-            call(ctx.neighbors, list(sub))
+            r = call(ctx.neighbors, list(sub))
+            if r is not RAISED and isinstance(r, list) and k % 5 == 0:
+                r.clear()               # the caller owns the returned list
+                asked.append(list(sub))
+    for sub in asked[:12]:              # the same questions again, later, in another order
+        call(ctx.neighbors, tuple(reversed(sub)))
+    old = POOL.older(rng)
+    if old is not None:
+        octx = old
+        call(octx.neighbors, rng.sample(list(octx.objects), rng.randint(0, len(octx.objects))))
+        call(octx.neighbors, [])
+        COL.count('session_requeries')
+    POOL.add(ctx)
     if spec.get('replay') is not None or hash(gen.table_key(case)) % 3 == 0:
         d = call(ctx.todict)
         if d is not RAISED:
